@@ -2555,7 +2555,7 @@ func (s *Translator) buildExpansionPatternRoot(traversalStepContext TraversalSte
 	}
 
 	// If there are terminal node constraints then the right node must be joined
-	if expansionModel.TerminalNodeSatisfactionProjection != nil {
+	if expansionModel.TerminalNodeSatisfactionProjection != nil && expansionTerminalNodeJoinIsLocal(traversalStep) {
 		nextQueryFrom.Joins = append(nextQueryFrom.Joins, pgsql.Join{
 			Table: expansionNodeTableReference(traversalStep.RightNode.Identifier),
 			JoinOperator: pgsql.JoinOperator{
@@ -2587,7 +2587,7 @@ func (s *Translator) buildExpansionPatternRoot(traversalStepContext TraversalSte
 	// node columns appear in the recursive body.
 	recursiveJoins := []pgsql.Join{recursiveExpansionEdgeLookupJoin(traversalStep)}
 
-	if expansionModel.TerminalNodeConstraints != nil {
+	if expansionModel.TerminalNodeConstraints != nil && expansionTerminalNodeJoinIsLocal(traversalStep) {
 		recursiveJoins = append(recursiveJoins, pgsql.Join{
 			Table: expansionNodeTableReference(traversalStep.RightNode.Identifier),
 			JoinOperator: pgsql.JoinOperator{
@@ -2713,7 +2713,7 @@ func (s *Translator) buildExpansionPatternStep(traversalStepContext TraversalSte
 		seed.edgeJoin(traversalStep.Edge.Identifier, expansionModel.EdgeStartColumn),
 	}
 
-	if expansionModel.TerminalNodeSatisfactionProjection != nil {
+	if expansionModel.TerminalNodeSatisfactionProjection != nil && expansionTerminalNodeJoinIsLocal(traversalStep) {
 		primerJoins = append(primerJoins, pgsql.Join{
 			Table: expansionNodeTableReference(traversalStep.RightNode.Identifier),
 			JoinOperator: pgsql.JoinOperator{
@@ -2740,7 +2740,7 @@ func (s *Translator) buildExpansionPatternStep(traversalStepContext TraversalSte
 	recursiveJoins := []pgsql.Join{recursiveExpansionEdgeLookupJoin(traversalStep)}
 
 	// If there are terminal node constraints then the right node must be joined
-	if expansionModel.TerminalNodeSatisfactionProjection != nil {
+	if expansionModel.TerminalNodeSatisfactionProjection != nil && expansionTerminalNodeJoinIsLocal(traversalStep) {
 		recursiveJoins = append(recursiveJoins, pgsql.Join{
 			Table: expansionNodeTableReference(traversalStep.RightNode.Identifier),
 			JoinOperator: pgsql.JoinOperator{
@@ -3008,6 +3008,19 @@ func expansionSuffixTerminalSatisfaction(currentStep *TraversalStep, suffixSteps
 			},
 		},
 	}, true
+}
+
+// expansionTerminalNodeJoinIsLocal reports whether the terminal node can be joined inside the primer and
+// recursive terms of an expansion. A terminal node that an earlier frame already materialized is referenced
+// through that frame, which is not in scope inside those terms; its constraints are external as well and are
+// applied by the projection statement, so the join is not needed there.
+func expansionTerminalNodeJoinIsLocal(traversalStep *TraversalStep) bool {
+	_, externalJoinCondition := partitionConstraintByLocality(
+		traversalStep.Expansion.ExpansionNodeJoinCondition,
+		pgsql.AsIdentifierSet(traversalStep.RightNode.Identifier, traversalStep.Edge.Identifier),
+	)
+
+	return externalJoinCondition == nil
 }
 
 func expansionLocalTerminalSatisfactionProjection(traversalStep *TraversalStep) (pgsql.SelectItem, error) {
